@@ -10,6 +10,7 @@ INVARIANTS
   Gap_Sessions
   Gap_Clock
   C12_PrefixLimitRemovesAll
+  C12_CurrentSessionCapsDecide
   C12_NoGrRemovesAll
   C12_NonQualifyingRemovesAll
   C12_FamilySplit
